@@ -183,6 +183,10 @@ func runWalletSuite(seed uint64, n int, out *Out, stats *Stats) {
 		set := pickSettings(r)
 		set.Genesis = 5_000_000_000_000
 		set.Limit = 1440
+		if i%10 == 3 {
+			incomeOnlyCase(id, r, set, out, stats)
+			continue
+		}
 		// holdings: equal values, zero-valued, a few or hundreds
 		nh := r.Pick(1, 2, 3, 5, 8, 20, 60)
 		if r.Chance(1, 12) {
@@ -575,14 +579,14 @@ func runViewsSuite(seed uint64, n int, out *Out, stats *Stats) {
 			body = []byte("{not json")
 		}
 		ctl := apayment.NewProgressController(sender, set, watch2, &CapLogger{})
-		if inject < 4 && !failFirst && !badBody && r.Chance(1, 3) {
+		if inject < 4 && !failFirst && !badBody && (r.Chance(1, 3) || i%5 == 2) {
 			// the access node's controller and its validator have both served a request before, when
 			// the validator was still on a private chain with a younger genesis; the validator has
 			// re-synced onto the network chain since (one node, one set of handlers, throughout)
 			young := NewNode(set, w.wallets[2].Addr)
 			young.Pool.Validate(w.now - set.Interval)
 			var ys application.Sender = backedSender(young)
-			if i%6 == 0 {
+			if i%2 == 0 {
 				// through the repository's own host, transport and client
 				if nb, ok := realSender(young); ok {
 					ys = nb
@@ -692,5 +696,102 @@ func runViewsSuite(seed uint64, n int, out *Out, stats *Stats) {
 				out.Violation("C19", id, fmt.Sprintf("progress\tstage %d: reported %q, the validator's state says %q", stage, got, want))
 			}
 		}
+	}
+}
+
+// incomeOnlyCase: a wallet sends everything it owns (the rest output that comes back is a yielding output of
+// value 0), the recipient spends its share, time passes and income accrues on the empty output. The wallet
+// then asks the access node for a payment out of that income: what the answer lists must be admitted by the
+// validator and included in its next block (the outputs of one transaction are independent of each other).
+func incomeOnlyCase(id string, r *Rng, set *Settings, out *Out, stats *Stats) {
+	set.HalfLife = 600e9
+	set.Interval = 60 * int64(time.Second)
+	w, owner := walletWorld(r, set, []uint64{uint64(200000 + r.Intn(100000))}, false)
+	v := w.host
+	tick := func() {
+		w.now = v.Chain.LastBlockTimestamp() + set.Interval
+		v.Pool.Validate(w.now)
+		v.Log.Take()
+	}
+	viol := func(key, what string) { out.Violation("C18", id, key+"\tincome-only holding: "+what) }
+	conf := w.confirmed(v, owner)
+	if len(conf) != 1 || conf[0].value <= 3*set.Fee {
+		stats.Count("info/income-only: set-up did not go through")
+		return
+	}
+	rcpt := w.wallets[2]
+	sendAll := w.build(&txPlan{ins: []spendable{conf[0]}, outs: []*JOutput{{rcpt.Addr, false, conf[0].value - set.Fee}, {owner.Addr, true, 0}}, ts: w.now})
+	v.Pool.AddTransaction(sendAll, "a", "b")
+	tick()
+	tick()
+	shares := w.confirmed(v, rcpt)
+	if len(shares) != 1 {
+		stats.Count("info/income-only: the send-all was not confirmed")
+		return
+	}
+	spendShare := w.build(&txPlan{ins: []spendable{shares[0]}, outs: []*JOutput{{w.wallets[3].Addr, false, shares[0].value - set.Fee}}, ts: w.now})
+	if r.Chance(3, 4) {
+		v.Pool.AddTransaction(spendShare, "a", "b")
+	}
+	for k := 0; k < 6+r.Intn(10); k++ {
+		tick()
+	}
+	// the request
+	now := w.now + int64(r.U64n(uint64(set.Interval)))
+	watch := &ScriptWatch{fallback: func() int64 { return now }}
+	ctl := apayment.NewInfoController(backedSender(v), set, watch, &CapLogger{})
+	held := v.Ureg.Utxos(owner.Addr)
+	first := v.Chain.FirstBlockTimestamp()
+	nextTs := first + ((now-first)/set.Interval+1)*set.Interval
+	var bal uint64
+	for _, u := range held {
+		bal += u.Value(nextTs, set.HalfLife, set.Base, set.ILimit)
+	}
+	if bal <= set.Fee+2 {
+		stats.Count("info/income-only: no income yet")
+		return
+	}
+	amount := (bal - set.Fee) / 2
+	rec := httptest.NewRecorder()
+	ctl.GetTransactionInfo(rec, httptest.NewRequest("GET", fmt.Sprintf("/transaction/info?address=%s&value=%d&consolidation=false", owner.Addr, amount), nil))
+	stats.Count(fmt.Sprintf("info/income-only/status=%d", rec.Code))
+	stats.Cases++
+	stats.Ops++
+	if rec.Code != http.StatusOK {
+		viol("affordable-refused", fmt.Sprintf("balance %d at the next block time, amount %d, fee %d: status %d", bal, amount, set.Fee, rec.Code))
+		return
+	}
+	var ans infoAnswer
+	if err := json.Unmarshal(rec.Body.Bytes(), &ans); err != nil || len(ans.Inputs) == 0 {
+		viol("undecodable-answer", rec.Body.String())
+		return
+	}
+	jt := &JTx{Timestamp: ans.Timestamp}
+	jt.Inputs = []*JInput{}
+	for _, in := range ans.Inputs {
+		jt.Inputs = append(jt.Inputs, owner.SignInput(in.OutputIndex, in.TransactionId))
+	}
+	jt.Outputs = []*JOutput{{w.wallets[4].Addr, false, amount}, {owner.Addr, false, ans.Rest}}
+	jt.Id = jt.ComputeId()
+	tx, err := jt.Real()
+	if err != nil {
+		viol("undecodable-tx", err.Error())
+		return
+	}
+	before := len(v.Pool.Transactions())
+	v.Pool.AddTransaction(tx, "a", "b")
+	lines := v.Log.Take()
+	if len(v.Pool.Transactions()) != before+1 {
+		viol("not-admitted", fmt.Sprintf("the access node lists %d output(s) of the wallet (balance %d) for amount %d, rest %d; the transaction built from the answer is refused by the pool: %s", len(ans.Inputs), bal, amount, ans.Rest, strings.Join(lines, " | ")))
+		return
+	}
+	w.now = v.Chain.LastBlockTimestamp() + set.Interval
+	v.Pool.Validate(w.now)
+	included := false
+	for _, t := range v.Chain.LastBlockTransactions() {
+		included = included || t.Id() == tx.Id()
+	}
+	if !included {
+		viol("not-included", "the transaction built from the answer is not in the next block: "+strings.Join(v.Log.Take(), " | "))
 	}
 }
